@@ -30,7 +30,10 @@ SPEC = {
                   "decode(encode) = uncompressed rendering for frames with a non-empty package path (and line-wise for the "
                   "surviving complete lines of a truncated name); decode identity on names without newline; line count "
                   "preserved; is_stack iff newline. decode_encode is REFUTED for an empty package path (known finding "
-                  "ditto-empty-path, theorem C15_decode_encode_refuted). The model is tied to the code by differential "
+                  "ditto-empty-path, theorem C15_decode_encode_refuted). 'different stacks -> different names' holds "
+                  "only under the premise that the symboliser is injective, which is REFUTED on the real runtime for "
+                  "instantiations of one generic function (known finding symboliser-not-injective, theorem "
+                  "C15_different_stack_same_name_refuted). The model is tied to the code by differential "
                   "execution on real program counters.",
     "level_note": "Trusted: Coq kernel+VM, extraction (ExtrOcamlBasic), OCaml glue, Go harness and generators. "
                   "The runtime symboliser (runtime.CallersFrames, Func.FileLine) is a parameter: the frame-level theorems "
